@@ -15,6 +15,7 @@
 (g) invalid / empty / indented-fragment inputs are handed back (concrete witnesses)."""
 from __future__ import annotations
 
+import ast
 import random
 
 from vk import pool, poolfam
@@ -332,6 +333,10 @@ def obligations(tier, seed):
     for sk, li in ann_jobs:
         lines = sk.text.split("\n")
         lines[li] = lines[li] + "  # pyrefact: ignore"
+        try:
+            ast.parse("\n".join(lines))
+        except SyntaxError:
+            continue  # a comment after a line-continuation backslash: the annotated text is not Python any more
         s2 = pool.Skeleton("%s@ignore%d" % (sk.sid, li), "\n".join(lines), lits=sk.lits, tape=sk.tape, meta=sk.meta)
         if sk.meta.get("rule"):
             jobs.append((s2, sk.meta["rule"]))
